@@ -125,7 +125,7 @@ func BuildJournal(source GtfsrtSource, startTime, endTime time.Time) *Journal {
 		newActiveTrips := map[string]bool{}
 		for _, tripUpdate := range feedMessage.Trips {
 			startTime := tripUpdate.ID.StartDate.Add(tripUpdate.ID.StartTime)
-			tripUID := fmt.Sprintf("%d%s", startTime.Unix(), tripUpdate.ID.ID[6:])
+			tripUID := fmt.Sprintf("%d%s", startTime.Unix(), tripIDSuffix(tripUpdate.ID.ID))
 			if existingTrip, ok := trips[tripUID]; ok {
 				existingTrip.update(&tripUpdate, createdAt)
 			} else {
@@ -168,6 +168,15 @@ func BuildJournal(source GtfsrtSource, startTime, endTime time.Time) *Journal {
 	return j
 }
 
+// tripIDSuffix returns the trip ID without its 6 character origin time prefix.
+// Trip IDs that are too short to have such a prefix are returned unchanged.
+func tripIDSuffix(tripID string) string {
+	if len(tripID) < 6 {
+		return tripID
+	}
+	return tripID[6:]
+}
+
 func (trip *Trip) update(tripUpdate *gtfs.Trip, feedCreatedAt time.Time) {
 	if trip.IsAssigned && tripUpdate.Vehicle == nil {
 		// TODO: this seems to happen a lot, would be nice to figure out what's happening.
@@ -177,7 +186,7 @@ func (trip *Trip) update(tripUpdate *gtfs.Trip, feedCreatedAt time.Time) {
 	startTime := tripUpdate.ID.StartDate.Add(tripUpdate.ID.StartTime)
 	vehicle := tripUpdate.GetVehicle()
 
-	trip.TripUID = fmt.Sprintf("%d%s", startTime.Unix(), tripUpdate.ID.ID[6:])
+	trip.TripUID = fmt.Sprintf("%d%s", startTime.Unix(), tripIDSuffix(tripUpdate.ID.ID))
 	trip.TripID = tripUpdate.ID.ID
 	trip.RouteID = tripUpdate.ID.RouteID
 	trip.DirectionID = tripUpdate.ID.DirectionID
